@@ -21,12 +21,18 @@ Definition ok (c : case_t) : bool :=
 "#;
 
 /// (label, features reported absent)
-const TIERS: [(&str, &str); 4] = [
+const TIERS: [(&str, &str); 6] = [
     ("native", ""),
     ("avx2", "avx512"),
     ("sse", "avx512,avx2,avx"),
     ("scalar", "avx512,avx2,avx,bmi2,bmi1,popcnt,lzcnt,sse42,sse41"),
+    // mixed tiers (oracle only, no model cases): SSE4.1 without SSE4.2 is the only way into the
+    // `Sse2` UTF-8 kernel and pairs BMI2 with the table CRC and scalar memory kernels; BMI masked
+    // alone pairs the software bit helpers with AVX-512 / POPCNT kernels
+    ("sse41", "avx512,avx2,avx,sse42"),
+    ("nobmi", "bmi2,bmi1"),
 ];
+const MODEL_TIERS: usize = 4;
 
 // ---------------------------------------------------------------------------------------------
 // guard-page regions
@@ -151,6 +157,7 @@ impl Ctx {
     }
     /// model case for Coq: (op, a, b, k, expected observation)
     fn coq(&mut self, op: u32, a: &[u8], b: &[u8], k: u64, obs: Option<Vec<i128>>, cj: &Value) {
+        if !TIERS[..MODEL_TIERS].iter().any(|t| t.1 == self.disable) { return; }
         let used = self.coq_used.entry(op).or_insert(0);
         if !self.force_coq && *used >= self.coq_per_op { return; }
         if a.len() > 300 && !self.force_coq && *used * 4 >= self.coq_per_op { return; } // few long ones
@@ -1127,7 +1134,7 @@ fn corpus_dir() -> String {
     exe.and_then(|p| p.ancestors().nth(4).map(|r| r.join("corpus/C14").to_string_lossy().to_string())).unwrap_or_else(|| "/verif/corpus/C14".into())
 }
 
-const RULE: &str = "per dispatch tier (native, avx512 masked, avx512+avx2 masked, everything masked; one process each through the ZIPORA_VERIF_DISABLE hook): every length 0..=130 and 4090..=4100 plus 255..257, 511..513, 1023..1025 and random lengths up to 4089, each under several placements: flush against a PROT_NONE guard page at either end, 64-byte aligned, or a random alignment 0..63 straddling a page boundary; all 64 alignments of both buffers on lengths 15..17/31..33/63..65/100; needles at first/last/chunk-boundary positions and absent, surrounded by needle bytes outside the slice; bytes >= 0x80; UTF-8 pieces (valid 1-4 byte boundary code points, overlong, surrogate, > U+10FFFF, truncated, stray continuation) placed at chunk boundaries and at the end; substring needles of 0..40 bytes over 2/3/144-letter alphabets; character sets of 1..20 members with zero bytes in the haystack; bit helpers on special and random words with indices up to u32::MAX; a case is non-trivial when the input is at least one SSE vector long (bit helpers: non-zero operands); distinct = distinct canonical case text";
+const RULE: &str = "per dispatch tier (native, avx512 masked, avx512+avx2 masked, everything masked, SSE4.1 without SSE4.2, BMI1/2 masked alone; one process each through the ZIPORA_VERIF_DISABLE hook): every length 0..=130 and 4090..=4100 plus 255..257, 511..513, 1023..1025 and random lengths up to 4089, each under several placements: flush against a PROT_NONE guard page at either end, 64-byte aligned, or a random alignment 0..63 straddling a page boundary; all 64 alignments of both buffers on lengths 15..17/31..33/63..65/100; needles at first/last/chunk-boundary positions and absent, surrounded by needle bytes outside the slice; bytes >= 0x80; UTF-8 pieces (valid 1-4 byte boundary code points, overlong, surrogate, > U+10FFFF, truncated, stray continuation) placed at chunk boundaries and at the end; substring needles of 0..40 bytes over 2/3/144-letter alphabets; character sets of 1..20 members with zero bytes in the haystack; bit helpers on special and random words with indices up to u32::MAX under every switch of BitOpsConfig, batches of 0..10 words and 0..4 masks, fields inside and outside the word; every case also through reused / cloned / global objects, SimdMemOps::with_cache_config over the five presets and six hand-made configurations, all eight SearchConfig combinations, the four Base64 configurations of encoder, decoder and codec incl. each other's encodings; operation histories (6..17 operations: fill, copy between and inside two shared buffers through every copy entry point, compare, byte / substring / set search, running CRC, UTF-8 verdicts, hex and Base64 encode / decode into the buffers, prefetch hints) judged by two shadow vectors after every step; cursor histories (next / prev / reset / current / position) of the UTF-8 iterator; inputs of 65535..65537 and 2^20+63 bytes flush against a guard page, described by (kind, n, seed, pos); periodic needles with false starts before a straddling match in haystacks up to 4099 bytes; complete enumerations of the hex / UTF-8 length / Base64 length / ASCII class tables and of the dispatch macros; a case is non-trivial when the input is at least one SSE vector long (bit helpers: non-zero operands); distinct = distinct canonical case text";
 
 pub fn run(args: &Args) {
     if std::env::var("ZV_C14_CHILD").is_ok() { child(args); return; }
